@@ -159,7 +159,9 @@ func createHtmlAttrs(attrs []html.Attribute) []HtmlAttribute {
 	for _, i := range attrs {
 		name := i.Key
 
-		if name == xmlns {
+		if name == xmlns || i.Namespace == xmlns {
+			// In foreign content (svg, math) the HTML parser stores
+			// xmlns:xlink="..." as namespace "xmlns", key "xlink".
 			continue
 		}
 
